@@ -48,6 +48,11 @@ DIRKEY = {"src": "src", "inc": "inc", "sys": "sys", "bld": "bld", "ext": "ext"}
 FILEKEY = {"src/m1.c": "m1", "src/m2.c": "m2"}
 
 
+def scen_order(e):
+    """search order of an entry's include directories: -I first, then -isystem"""
+    return [r for r in e["idirs"] if not r["sys"]] + [r for r in e["idirs"] if r["sys"]]
+
+
 def replay_chunk(args):
     pairs, seed, workdir = args
     fails = []
@@ -65,6 +70,11 @@ def replay_chunk(args):
                 os.makedirs(os.path.join(m.root, d), exist_ok=True)
             os.makedirs(m.extdir, exist_ok=True)
             made = decorate(m, al["links"])
+            outs = [p for f, p in m.paths.items() if not C10.inside(m, f)]
+            if outs and al["links"]:
+                lp = os.path.join(m.root, "inc", "out_alias.h")
+                os.symlink(outs[0], lp)
+                made.append((lp, outs[0]))
             byp = scen.ents_by_plat(sc)
             plats = sorted(byp)
             exp = scen.expected_by_plat(m, sc)
@@ -94,6 +104,27 @@ def replay_chunk(args):
                                   detail=f"{err[1]}\n{err[2]}", case={"scen": sc, "alias": al}))
                 continue
             d = scen.compare(m, sc, st, exp)
+            # the same through finder.find's own surface: entries that name their file and include
+            # directories by alias spellings directly (not canonicalised by load_database)
+            direct = {}
+            for plat, ents in byp.items():
+                direct[plat] = []
+                for e in ents:
+                    defs = ["X"] if e["x"] != "U" else []
+                    # (-include is looked up beside the main file as spelled - C04's recorded finding - so
+                    # entries with forced includes keep the canonical spelling of their file here)
+                    direct[plat].append(cbi.entry(m.paths[e["file"]] if e["forced"] else spell_file(e["file"]), defs,
+                                                  [spell_dir(r["d"]) for r in scen_order(e)], list(e["forced"])))
+            st2, cb2, logs2, err2 = cbi.run_find(m.root, direct)
+            stats["evals"] += 1
+            if err2 is not None:
+                d.append(f"finder.find with alias-spelled entries raised {err2[0]}: {err2[1]}")
+            else:
+                d += scen.compare(m, sc, st2, exp, label="direct entries: ")
+                sm2 = {k: v for k, v in st2.get_setmap(cb2).items() if v}
+                want2 = {k: v for k, v in C10.expected_setmap(m, exp, plats, set()).items() if v}
+                if sm2 != want2:
+                    d.append(f"direct entries: get_setmap { {tuple(sorted(k)): v for k, v in sm2.items()} } != canonical twin")
             sm = {k: v for k, v in st.get_setmap(cb).items() if v}
             want = {k: v for k, v in C10.expected_setmap(m, exp, plats, set()).items() if v}
             if sm != want:
@@ -108,6 +139,14 @@ def replay_chunk(args):
             canon = {m.paths[f] for f in m.paths if C10.inside(m, f)}
             if not canon <= {os.path.realpath(p) for p in listed}:
                 d.append("a canonical member file is not enumerated")
+            # a path whose target lies outside the root is not a member, however it is spelled
+            for fid, path in m.paths.items():
+                if not C10.inside(m, fid):
+                    for sp in al["spell"]["ext"][:8]:
+                        cand = os.path.join(real(m.base, sp), os.path.basename(path))
+                        if os.path.exists(cand) and cand in cb:
+                            d.append(f"{cand} (target outside the root) reported as a member")
+                            break
             # membership is spelling independent
             for fid, key in FILEKEY.items():
                 if fid in m.paths:
